@@ -1,6 +1,7 @@
 SPECIFICATION Spec
 CONSTANTS Stride = 29
           Stride3 = 7
+          Core = "sign"
           Offset = 0
           PerPair = 1
           NCand = 24
